@@ -237,7 +237,7 @@ func (c *vvChecker) triple(a, b, x VersionVector) {
 }
 
 func TestVerif_vvlaws(t *testing.T) {
-	R := verifrt.NewReport("vvlaws", "exhaustive domain: ids {a,b,c} x counters {absent,0,1,2,MAX-1,MAX} = 216 vectors, every vector, every ordered pair; triples: all (thorough) or PRNG sample (quick); plus PRNG vectors over <=12 ids. non-trivial+distinct = distinct ordered pairs whose Compare result is not Equal, plus distinct PRNG pairs")
+	R := verifrt.NewReport("vvlaws", "exhaustive domain: ids {a,b,c} x counters {absent,0,1,2,MAX-1,MAX} = 216 vectors, every vector, every ordered pair; triples: all (thorough) or PRNG sample (quick); plus PRNG vectors over <=12 ids, plus four pairs of large vectors (40 000 - 65 535 ids each, unions beyond the serialisation cap) whose merge is checked entry-wise. non-trivial+distinct = distinct ordered pairs whose Compare result is not Equal, plus distinct PRNG pairs")
 	defer R.Flush()
 	c := &vvChecker{R: R}
 	dom := vfVVDomain()
@@ -309,6 +309,76 @@ func TestVerif_vvlaws(t *testing.T) {
 		}
 		if k < 2 {
 			R.Sample(map[string]any{"a": vfVVSnap(a), "b": vfVVSnap(b), "c": vfVVSnap(x), "compare_ab": int(o), "merge_ab": vfVVSnap(a.Merge(b))})
+		}
+	}
+	// large vectors: entry counts around and beyond the serialisation cap (65 535). The laws do not depend on size: the
+	// join of two vectors holds every id of both, whatever their number. Checked entry-wise against the model (snapshots of
+	// 10^5 entries are not printed).
+	if sh == 0 {
+		mkLarge := func(prefix string, from, to int, ctr uint64) VersionVector {
+			m := make(map[string]uint64, to-from)
+			for i := from; i < to; i++ {
+				m[fmt.Sprintf("%s%06d", prefix, i)] = ctr + uint64(i%3)
+			}
+			return VfMakeVV(m)
+		}
+		type lc struct {
+			name string
+			a, b VersionVector
+		}
+		larges := []lc{
+			{"65535 ids + 1 unseen id", mkLarge("n", 0, 65535, 1), mkLarge("x", 0, 1, 5)},
+			{"two disjoint sets of 40000 ids", mkLarge("n", 0, 40000, 1), mkLarge("n", 40000, 80000, 2)},
+			{"overlapping sets, union 70000 ids", mkLarge("n", 0, 50000, 1), mkLarge("n", 30000, 70000, 4)},
+			{"65534 ids + 3 unseen ids", mkLarge("n", 0, 65534, 2), mkLarge("y", 0, 3, 1)},
+		}
+		for li, l := range larges {
+			c.idx = 300000 + li
+			R.Journal(c.idx, "large: "+l.name)
+			ea, eb := VfVVEntries(l.a), VfVVEntries(l.b)
+			want := map[string]uint64{}
+			for k, v := range ea {
+				want[k] = v
+			}
+			for k, v := range eb {
+				if v > want[k] {
+					want[k] = v
+				}
+			}
+			check := func(what string, got VersionVector) {
+				eg := VfVVEntries(got)
+				missing, wrong := 0, 0
+				for k, v := range want {
+					if g, ok := eg[k]; !ok {
+						missing++
+					} else if g != v {
+						wrong++
+					}
+				}
+				if missing > 0 || wrong > 0 || len(eg) != len(want) {
+					c.bad("merge-not-pointwise-max", "Merge(large)", "%s, %s: the result has %d entries, the join has %d; %d ids of the operands are missing, %d have a wrong counter", l.name, what, len(eg), len(want), missing, wrong)
+				}
+			}
+			ab, ba := l.a.Merge(l.b), l.b.Merge(l.a)
+			check("a.Merge(b)", ab)
+			check("b.Merge(a)", ba)
+			if !ab.Equal(ba) {
+				c.bad("merge-not-commutative", "Merge(large)", "%s: a.Merge(b) and b.Merge(a) differ", l.name)
+			}
+			for _, op := range []struct {
+				n string
+				v VersionVector
+			}{{"a", l.a}, {"b", l.b}} {
+				if o := op.v.Compare(ab); o != VersionBefore && o != VersionEqual {
+					c.bad("merge-not-upper-bound", "Merge(large)", "%s: operand %s compares %d with the merge result (want Before or Equal)", l.name, op.n, o)
+				}
+			}
+			if len(VfVVEntries(l.a)) != len(ea) || len(VfVVEntries(l.b)) != len(eb) {
+				c.bad("operand-mutated", "Merge(large)", "%s: an operand changed size", l.name)
+			}
+			R.Eval()
+			R.Nontrivial("large:" + l.name)
+			R.Obs("large_vector_cases", 1)
 		}
 	}
 	R.Sample(map[string]any{"a": vfVVSnap(dom[7]), "b": vfVVSnap(dom[40]), "compare_ab": int(dom[7].Compare(dom[40])), "merge_ab": vfVVSnap(dom[7].Merge(dom[40]))})
